@@ -14,6 +14,7 @@ The rule is one-sided: an effect that is *not in the table* is reported (a new w
 missing effects are the business of the must-pass-through rules of each property.
 """
 import json
+import re
 import os
 
 from engine.anl.locks import guard_info, lock_fields
@@ -46,6 +47,23 @@ def _strip(ty):
     return ty
 
 
+def static_label(P, path):
+    """a name for a `static` that survives renaming it or moving it between a function body and its module: the module that
+    defines it and its type (two statics of one type in one module fall back to their names)"""
+    path = str(path)
+    st = P.statics.get(path)
+    if st is None:
+        cands = [k for k in P.statics if k.endswith("::" + path.split("::")[-1])]
+        st = P.statics.get(cands[0]) if len(cands) == 1 else None
+        path = cands[0] if len(cands) == 1 else path
+    if st is None:
+        return path.split("::")[-1]
+    mod = "::".join(path.split("::")[:2])
+    ty = re.sub(r"\b(?:[a-z_][a-z0-9_]*::)+", "", st["ty"]["s"])[:60]
+    same = [k for k, v in P.statics.items() if "::".join(k.split("::")[:2]) == mod and v["ty"]["s"] == st["ty"]["s"] and "__CALLSITE" not in k]
+    return "%s#%s" % (mod, ty) if len(same) == 1 else path.split("::")[-1]
+
+
 class Effects:
     def __init__(self, ctx):
         self.ctx = ctx
@@ -56,8 +74,8 @@ class Effects:
     def _target(self, body, o, op):
         """a stable name for the shared state an operand denotes, or None for local / unknown state"""
         if op["o"] not in ("copy", "move"):
-            if op["o"] == "const" and "static" in op.get("c", {}):
-                return "static " + str(op["c"]["static"]).split("::")[-1]
+            if op["o"] == "const" and "static" in op.get("c", {}) and "__CALLSITE" not in str(op["c"]["static"]):
+                return "static " + static_label(self.ctx.P, op["c"]["static"])
             return None
         l = op["place"]["local"]
         ty = _strip(body.lty(l))
@@ -83,7 +101,7 @@ class Effects:
             break
         for s_ in subterms(t):
             if isinstance(s_, tuple) and s_ and s_[0] == "static":
-                return "static " + str(s_[1]).split("::")[-1]
+                return "static " + static_label(self.ctx.P, s_[1])
             if isinstance(s_, tuple) and s_ and s_[0] == "var" and str(s_[1]).startswith("self."):
                 return str(s_[1])
             if isinstance(s_, tuple) and s_ and s_[0] == "var" and len(s_) > 2:
@@ -190,8 +208,8 @@ class Effects:
             if t["t"] == "call":
                 ops += t["args"]
             for op in ops:
-                if isinstance(op, dict) and op.get("o") == "const" and "static" in op.get("c", {}):
-                    out.add("static:%s" % str(op["c"]["static"]).split("::")[-1])
+                if isinstance(op, dict) and op.get("o") == "const" and "static" in op.get("c", {}) and "__CALLSITE" not in str(op["c"]["static"]):
+                    out.add("static:%s" % static_label(self.ctx.P, op["c"]["static"]))
         # stores through guards / self fields
         from .common import stores_through
         for bi, line, base, val, place in stores_through(body, o):
@@ -208,7 +226,7 @@ class Effects:
             if tg is None:
                 for s_ in subterms(base):
                     if isinstance(s_, tuple) and s_ and s_[0] == "static":
-                        tg = "static " + str(s_[1]).split("::")[-1]
+                        tg = "static " + static_label(self.ctx.P, s_[1])
             if tg:
                 out.add("store@%s" % tg)
         return out
